@@ -93,9 +93,21 @@ def retype(v):
 def mutate_leaf(rng, leaf, pool):
     """-> (changed leaf, atom kind) or None"""
     fn = M.ALIASES.get(leaf["fn"], leaf["fn"])
-    choices = ["callable", "arg", "argtype", "pre", "kind"]
+    choices = ["callable", "arg", "argtype", "pre", "kind", "argorder", "argmult"]
     rng.shuffle(choices)
     for ch in choices:
+        if ch == "argorder" and len(leaf.get("args") or []) >= 2 and canon(leaf["args"][0]) != canon(leaf["args"][-1]):
+            new = _copy.deepcopy(leaf)
+            new["args"][0], new["args"][-1] = new["args"][-1], new["args"][0]
+            return new, "arg-order"
+        if ch == "argmult" and M.SIGS[fn][0] == "varpos" and leaf.get("args"):
+            new = _copy.deepcopy(leaf)
+            new["args"] = new["args"] + [new["args"][rng.randrange(len(new["args"]))]]
+            return new, "arg-multiplicity"
+        if ch == "argmult" and leaf.get("args") and type(leaf["args"][-1]) is list and leaf["args"][-1] and "$" not in repr(leaf["args"][-1]):
+            new = _copy.deepcopy(leaf)
+            new["args"][-1] = new["args"][-1] + [new["args"][-1][0]]
+            return new, "arg-multiplicity"
         if ch == "arg" and (leaf.get("args") or leaf.get("kwargs")):
             new = _copy.deepcopy(leaf)
             if new.get("args"):
@@ -322,6 +334,14 @@ def strata(tier):
         (L("value", "is_instance", {"$type": "int"}), L("value", "is_instance", {"$type": "bool"}), "arg-value"),
         (L("value", "keys_contain_any_of", "a", "b"), L("value", "keys_contain_any_of", "b", "a"), "arg-order"),
         (L("value", "in_", [1, 2]), L("value", "in_", [2, 1]), "arg-order"),
+        (L("value", "in_range", 1, 5), L("value", "in_range", 5, 1), "arg-order"),
+        (L("value", "keys_contain_N_of", 1, ["a", 2]), L("value", "keys_contain_N_of", 2, ["a", 1]), "arg-order"),
+        (L("value", "equal_to_approx", 1, 3), L("value", "equal_to_approx", 3, 1), "arg-order"),
+        (L("value", "keys_contain_one_of", "a", "a", "b"), L("value", "keys_contain_one_of", "a", "b", "b"), "arg-multiplicity"),
+        (L("value", "keys_contain_one_of", "a", "b"), L("value", "keys_contain_one_of", "a", "b", "b"), "arg-multiplicity"),
+        (L("value", "keys_contain_N_of", 2, ["a", "a"]), L("value", "keys_contain_N_of", 2, ["a"]), "arg-multiplicity"),
+        (L("value", "keys_equal_to", "a", "b"), L("value", "keys_equal_to", "a", "b", "b"), "arg-multiplicity"),
+        (L("value", "equal_to", [1, 1, 2]), L("value", "equal_to", [1, 2, 2]), "arg-multiplicity"),
         (L("value", "equal_to", 0.3), L("value", "equal_to", 0.1 + 0.2), "arg-value:float-neighbour"),
         (L("value", "less_than", 0.3), L("value", "less_than", 0.1 + 0.2), "arg-value:float-neighbour"),
         (L("value", "greater_than_or_equal_to", 1e-9), L("value", "greater_than_or_equal_to", math.nextafter(1e-9, 1)), "arg-value:float-neighbour"),
